@@ -5,7 +5,7 @@ From GN Require Import Gen.RequireGlue.
 Import ListNotations.
 Definition expected_loader_src : list (string * string) := [
   ("getSource", "srcLoader:=r.srcLoader;if srcLoader==nil{srcLoader=DefaultSourceLoader};return srcLoader(p)");
-  ("getCompiledSource", "r.Lock();defer r.Unlock();prg:=r.compiled[p];if prg==nil{buf,err:=r.getSource(p);if err!=nil{return nil,err};s:=string(buf);if filepath.Ext(p)=="".json""{lit,err:=json.Marshal(s);if err!=nil{return nil,err};s=""module.exports = JSON.parse(""+string(lit)+"")""};source:=""(function(exports,require,module,__filename,__dirname){""+s+""\n})"";parsed,err:=js.Parse(p,source,parser.WithSourceMapLoader(r.srcLoader));if err!=nil{return nil,err};prg,err=js.CompileAST(parsed,false);if err==nil{if r.compiled==nil{r.compiled=make(map[string]*js.Program)};r.compiled[p]=prg};return prg,err};return prg,nil")
+  ("getCompiledSource", "r.Lock();defer r.Unlock();prg:=r.compiled[p];if prg==nil{buf,ok:=r.manifests[p];if!ok{var err error;buf,err=r.getSource(p);if err!=nil{return nil,err};if filepath.Base(p)==""package.json""{if r.manifests==nil{r.manifests=make(map[string][]byte)};r.manifests[p]=buf}};s:=string(buf);if filepath.Ext(p)=="".json""{lit,err:=json.Marshal(s);if err!=nil{return nil,err};s=""module.exports = JSON.parse(""+string(lit)+"")""};source:=""(function(exports,require,module,__filename,__dirname){""+s+""\n})"";parsed,err:=js.Parse(p,source,parser.WithSourceMapLoader(r.srcLoader));if err!=nil{return nil,err};prg,err=js.CompileAST(parsed,false);if err==nil{if r.compiled==nil{r.compiled=make(map[string]*js.Program)};r.compiled[p]=prg};return prg,err};return prg,nil")
 ]%string.
 
 Theorem loader_source_unchanged : loader_src = expected_loader_src.
